@@ -79,6 +79,8 @@ def template(rng: random.Random, bits=64, label_count=8) -> str:
         return prefixed(rng, bits)
     if r < 0.74 and bits == 64:
         return decorated(rng)
+    if r < 0.78:
+        return rare(rng, bits)
     op = rng.choice(two)
     form = rng.random()
     if form < 0.3:
@@ -118,6 +120,31 @@ def prefixed(rng: random.Random, bits=64) -> str:
     return f".byte {byte}\n\t{body}"
 
 
+def rare(rng: random.Random, bits=64) -> str:
+    """Forms a compiler rarely emits but objdump prints: the pseudo index register %riz / %eiz (a SIB byte without index; gas refuses
+    the name, so raw bytes are emitted), un-prefixed string instructions with two memory operands or a segment operand first,
+    repeated data16 prefixes, long NOPs."""
+    di, si = ("%rdi", "%rsi") if bits == 64 else ("%edi", "%esi")
+    acc = "%rax" if bits == 64 else "%eax"
+    raw64 = [".byte 0x48,0x8d,0x74,0x26,0x00", ".byte 0x48,0x8d,0xb4,0x26,0x00,0x00,0x00,0x00", ".byte 0x48,0x8b,0x04,0x24", ".byte 0x8d,0x74,0x26,0x00",
+             ".byte 0x67,0x8d,0x74,0x26,0x00", ".byte 0x67,0x8d,0xb4,0x26,0x00,0x00,0x00,0x00", ".byte 0x66,0x66,0x90", ".byte 0x66,0x66,0x66,0x90",
+             ".byte 0x66,0x66,0x2e,0x0f,0x1f,0x84,0x00,0x00,0x00,0x00,0x00", ".byte 0x48,0x8d,0x04,0x65,0x00,0x00,0x00,0x00"]
+    raw32 = [".byte 0x8d,0xb4,0x26,0x00,0x00,0x00,0x00", ".byte 0x8d,0x74,0x26,0x00", ".byte 0x8d,0xb6,0x00,0x00,0x00,0x00", ".byte 0x8d,0x04,0x65,0x00,0x00,0x00,0x00",
+             ".byte 0x66,0x66,0x90", ".byte 0x8b,0x04,0x24"]
+    strings = [f"lods %ds:({si}),%al", f"lods %ds:({si}),{acc}", f"scas %es:({di}),%al", f"scas %es:({di}),{acc}", f"outsb %ds:({si}),(%dx)", f"insb (%dx),%es:({di})",
+               f"cmpsb %es:({di}),%ds:({si})", f"movsb %ds:({si}),%es:({di})", f"stos %al,%es:({di})", f"outsl %ds:({si}),(%dx)", "xlat %ds:(%rbx)" if bits == 64 else "xlat %ds:(%ebx)"]
+    r = rng.random()
+    if bits == 32 and r < 0.35:
+        # 16-bit addressing in 32-bit code (0x67 prefix): the only AT&T memory reference with two registers and no scale
+        b16, i16 = rng.choice(["%bx", "%bp"]), rng.choice(["%si", "%di"])
+        d16 = rng.choice(["", "0x10", "-0x4", "0x7f", "0x100"])
+        m16 = rng.choice([f"{d16}({b16},{i16})", f"{d16}({b16},{i16})", f"{d16}({rng.choice(['%bx', '%si', '%di', '%bp'] if d16 else ['%bx', '%si', '%di'])})"])
+        return rng.choice([f"mov {m16},%eax", f"mov %eax,{m16}", f"lea {m16},%ecx", f"addl $0x1,{m16}", f"mov {m16},%ax", f"fldcw {m16}"])
+    if r < 0.5:
+        return rng.choice(raw64 if bits == 64 else raw32)
+    return rng.choice(strings)
+
+
 def decorated(rng: random.Random) -> str:
     """AVX-512 operands with decorations glued to them: {1to16} broadcasts, {%k1} masks, {z}, {rn-sae} (64-bit only)."""
     z = lambda: "%zmm" + str(rng.randrange(0, 8))  # noqa: E731
@@ -131,7 +158,9 @@ def decorated(rng: random.Random) -> str:
     return rng.choice([
         f"vaddps {m}{{1to16}},{z()},{z()}", f"vmovaps {z()},{m}{k()}", f"vgatherdps {vm},{z()}{k()}", f"vscatterdps {z()},{vm}{k()}",
         f"vaddps {{rn-sae}},{z()},{z()},{z()}", f"vmovaps {z()},{z()}{k()}{{z}}", f"vaddps {m}{{1to16}},{z()},{z()}{k()}",
-        f"vcmpps $0x1,{m}{{1to16}},{z()},%k2{k()}", f"vpaddd {m}{{1to16}},{z()},{z()}{k()}{{z}}", f"vmulpd {m}{{1to8}},{z()},{z()}"])
+        f"vcmpps $0x1,{m}{{1to16}},{z()},%k2{k()}", f"vpaddd {m}{{1to16}},{z()},{z()}{k()}{{z}}", f"vmulpd {m}{{1to8}},{z()},{z()}",
+        f"vgetmantpd $0x4,{{sae}},{z()},{z()}", f"vrndscaleps $0x3,{{sae}},{z()},{z()}", f"vfixupimmpd $0x5,{{sae}},{z()},{z()},{z()}", f"vreduceps $0x1,{{sae}},{z()},{z()}{k()}",
+        f"vcmpps $0x2,{{sae}},{z()},{z()},%k1", f"vgetmantsd $0x4,{{sae}},%xmm1,%xmm2,%xmm3"])
 
 
 def _unary(rng, w, regs, bits):
